@@ -9,12 +9,20 @@ structure MProc where
   global : Scheme
   globalMd5 : String
   sessions : List MNode := []
+  /-- the process-wide default has been written (by a push, or by the harness at `begin`) -/
+  pushedAny : Bool := true
   deriving Inhabited
 
 def builtinScheme : Option Scheme := Scheme.parse (asciiBytes Gen.defaultScheme)
 
 def procBegin : Option MProc :=
   builtinScheme.map fun s => { global := s, globalMd5 := Md5.hex s.raw }
+
+/-- a fresh process with a configured scheme: until something is pushed, sessions get the configured one -/
+def procFresh (cfgHex : String) : Option MProc := do
+  let raw ← bytesOfHex cfgHex
+  let s ← Scheme.parse raw
+  some { global := s, globalMd5 := Md5.hex s.raw, pushedAny := false }
 
 def setNode (p : MProc) (i : Nat) (n : MNode) : MProc :=
   { p with sessions := p.sessions.mapIdx (fun j m => if j == i then n else m) }
@@ -24,7 +32,7 @@ def absorb (p : MProc) (i : Nat) (before : Nat) : MProc :=
   match p.sessions[i]? with
   | some n =>
     let g := absorbScheme p.global n.s.pushed before
-    { p with global := g, globalMd5 := Md5.hex g.raw }
+    { p with global := g, globalMd5 := Md5.hex g.raw, pushedAny := p.pushedAny || n.s.pushed.length > before }
   | none => p
 
 def pushOp (p : MProc) (toks : List String) : Option (MProc × String) :=
@@ -65,7 +73,7 @@ def pushOp (p : MProc) (toks : List String) : Option (MProc × String) :=
     match i.toNat? with
     | some i =>
       match p.sessions[i]? with
-      | some n => some (p, s!"md5={n.s.schemeMd5} gmd5={p.globalMd5} closed={b01 n.s.closed} pkt={n.s.pktCounter}")
+      | some n => some (p, s!"md5={n.s.schemeMd5} gmd5={if p.pushedAny then p.globalMd5 else "-"} closed={b01 n.s.closed} pkt={n.s.pktCounter}")
       | none => some (p, "nonode")
     | none => none
   | _ => none
